@@ -48,6 +48,18 @@ CLAIMED.update({
             "DESIGN.md §4 C18"),
 })
 
+CLAIMED.update({
+    "C04": ("deletion-site ownership table + who-may-call + guard dominance + backward string provenance + lockset (Fork.storageLock) over go/ssa",
+            "Structural necessary conditions decided for all interleavings at once: every os.Remove/RemoveAll of package core sits in a tabled function; files-path deleters are reachable only through partialVdrKill; a full kill needs Disabled or Complete with no waiting file post-node; "
+            "consumers leave the waiting set only when seen Complete/Disabled and never the nil consumer; only files with a nil keep-alive set reach os.RemoveAll; chunk files only under Split(); top-level outputs and retains carry the nil consumer; cloned forks inherit the bookkeeping; the three maps are touched only under storageLock (constructor-phase exceptions tabled).",
+            "Not decided: whether getLogicalFileNames/anyOverlap find every alias (file-system values); stages passing upstream paths through (excluded by the property).",
+            "DESIGN.md §4 C04"),
+    "C14": ("backward string provenance of removal targets + report/removal pairing + guard dominance over go/ssa (partial claim)",
+            "Structural necessary conditions: every path VDR removes originates from the stage's own metadata accessors or from file-cache keys produced by walking enumerateFiles(); no VDR across a symlinked ancestor; the slice reported is the slice removed, removal lies between recording and writing the report, inside a critical section; per-phase temp cleanup is state-guarded, flagged once and persisted.",
+            "Partial: equality of Count/Size with bytes removed, completeness (no volatile file survives) and merge arithmetic are run-time values and not decided.",
+            "DESIGN.md §4 C14"),
+})
+
 NOT_APPLICABLE = {
     "C01": "Equality of delivered argument values with the denotation of binding expressions quantifies over run-time JSON values and fork matching for all programs; no clause is a fact about the shape of the code, so any static rule would be a proxy, not a necessary condition.",
     "C13": "Materialisation of files under outs/ and the rewritten _outs are file-system effects and hand-assembled JSON values; the only structural candidate (bracket pairing of the JSON writers) does not imply validity and is exercised by the existing golden tests.",
